@@ -771,3 +771,98 @@ def mon_c10(case):
                 return step, f"{what}: estimator field {fld} differs from the expected state"
         win, prob, prot, tiny = nwin, nprob, nprot, ntiny
     return None
+
+
+def mon_c12(case):
+    """PutResult tells the truth: the result of every put-like call against the retained entries
+    (all partitions, ghosts included) before and after the call, on the real lists"""
+    kind = case["kind"]
+    if kind == 7:
+        for step, (op, out, cb, acct, snap) in enumerate(case["lines"], 1):
+            if op and op[0] == 130 and out != [-1000]:
+                a, b = op[1:5], op[5:9]
+                def norm(r):
+                    return (r[0],) + tuple(r[1:1 + [0, 1, 2, 3][min(r[0], 3)]])
+                eq = int(norm(a) == norm(b))
+                if out != [eq, eq, 1, 1, 1, 1 - eq]:
+                    return step, f"PutResult comparison of {norm(a)} and {norm(b)} gave {out}, structural equality is {eq}"
+        return None
+    if kind not in LAYOUT:
+        return None
+    resident_idx = LAYOUT[kind][2]
+    prevs = None
+    for step, (op, out, cb, acct, snap) in enumerate(case["lines"], 1):
+        if not op or op[0] in (98, 99) or out == [-1000]:
+            continue
+        p = parse_snap(kind, snap)
+        if p is None:
+            return step, "unreadable snapshot"
+        hdr, lists, _, _ = p
+        if prevs is None:
+            prevs = (hdr, [[] for _ in lists])
+        phdr, plists = prevs
+        c = op[0]
+        res = None
+        if c == 0 or (c == 30 and kind == 1):
+            k, v, res = op[1], op[2], out
+        elif kind == 0 and c in (16, 17, 18):
+            k, v = op[1], op[2]
+            R = {e for l in plists for e in l}
+            if c == 18:
+                hit, rest = out[0] == 1, out[1:]
+            else:
+                hit, rest = out[0] == 1, (out[2:] if out[0] == 1 else out[1:])
+            was = k in {e[0] for e in R}
+            if hit != was:
+                return step, f"op {c} on key {k}: reported {'resident' if hit else 'absent'} but the key was {'resident' if was else 'absent'}"
+            if hit:
+                if rest != [0]:
+                    return step, f"op {c} on resident key {k} returned a put result {rest}"
+            else:
+                if not rest or rest[0] != 1:
+                    return step, f"op {c} on absent key {k} returned no put result"
+                res = rest[1:]
+        if res is not None:
+            R = {e for l in plists for e in l}
+            R2 = {e for l in lists for e in l}
+            keysR = {e[0] for e in R}
+            resident2 = {e for i in resident_idx for e in lists[i]}
+            cap0 = kind == 0 and phdr[0] == 0
+            t = res[0]
+            exp = None
+            if t == 0:
+                if k in keysR:
+                    return step, f"put({k}) returned Put but the key was retained"
+                exp = R | {(k, v)}
+            elif t == 1:
+                if (k, res[1]) not in R:
+                    return step, f"put({k}) returned Update({res[1]}) but the retained entries were {sorted(R)}"
+                exp = (R - {(k, res[1])}) | {(k, v)}
+            elif t == 2:
+                ek, ev = res[1], res[2]
+                if cap0 and (ek, ev) == (k, v):
+                    exp = R
+                else:
+                    if k in keysR:
+                        return step, f"put({k}) returned Evicted but the key was retained (Update / EvictedAndUpdate expected)"
+                    if (ek, ev) not in R:
+                        return step, f"put({k}) reported Evicted({ek},{ev}) which was not a retained entry: {sorted(R)}"
+                    exp = (R - {(ek, ev)}) | {(k, v)}
+            else:
+                ek, ev, old = res[1], res[2], res[3]
+                if (k, old) not in R or (ek, ev) not in R or ek == k:
+                    return step, f"put({k}) reported EvictedAndUpdate({ek},{ev},{old}) against retained {sorted(R)}"
+                exp = (R - {(k, old), (ek, ev)}) | {(k, v)}
+            if kind == 3:
+                # ARC may discard ghost entries silently, it never invents one
+                if not (R2 <= exp and (k, v) in R2):
+                    return step, f"ARC put({k}): retained {sorted(R)} -> {sorted(R2)} with result {res}; expected a subset of {sorted(exp)} containing the new pair"
+                if t in (2, 3):
+                    return step, f"ARC put returned {res}"
+            elif R2 != exp:
+                return step, (f"put({k},{v}) returned {res}: retained entries {sorted(R)} -> {sorted(R2)}, "
+                              f"but the result says they became {sorted(exp)}")
+            if not cap0 and (k, v) not in resident2:
+                return step, f"after put({k},{v}) the key is not resident with that value: {sorted(resident2)}"
+        prevs = (hdr, lists)
+    return None
